@@ -10,26 +10,47 @@ MANIFEST = {
             "enumerated bounded input space (all permutations up to length 4/5 with all index tuples, ranges and "
             "insertion points, identity/reversal up to 5/7, all parent pairs over two-letter alphabets up to length "
             "3/4 with all cut tuples and masks, all permutation pairs up to 4/5). Every enumerated case is replayed on "
-            "the real function and TLC validates the recorded reply against the oracle value. The 17 mutation / "
-            "recombination components are specified as relations between the populations before and after; TLC "
-            "checks on a constructive model that the relation accepts every ideal behaviour, rejects corrupted ones "
-            "and implies the clauses of C13, and validates seeded random executions of every component through the "
-            "public Component API. Right level: the helpers are pure functions on small discrete data (exhaustive "
-            "enumeration decides them up to the bound), the components are stochastic (relational validation).",
+            "the real function and TLC validates the recorded reply against the oracle value. The arithmetic crossover "
+            "is additionally called on every pair of 21 extreme / far-apart finite genes (+-f64::MAX, +-1e308, 1e17 "
+            "next to 0.1, +-f64::MIN_POSITIVE, 0) with 9 alphas from exactly 0 to exactly 1 (and on random vectors of "
+            "them): genes reach the spec as ranks, child genes as position classes, and TLC requires every child gene "
+            "to be finite, between the parental genes (4 ulp), conserved across the two children, and equal (4 ulp) to "
+            "the parental gene the alpha selects at alpha = 0 and alpha = 1. The 17 mutation / recombination components "
+            "are specified as relations between the populations before and after; TLC checks on a constructive model "
+            "that the relation accepts every ideal behaviour, rejects corrupted ones and implies the clauses of C13, "
+            "and validates seeded random executions of every component through the public Component API. A case "
+            "records the constructor used and the arguments given to it; the spec derives the parameters the "
+            "execution must obey: every public constructor of every component is modelled (table compared at run time "
+            "with the harness sweep and with the pub fns in the source) and swept, the built instance must serialise "
+            "the parameters its constructor stands for, and the six identifier-generic components are executed under "
+            "the identifiers Global, A, B next to sibling instances of other identifiers with other rates / "
+            "strengths and with MutationRate / MutationStrength adapted through the state: each instance must obey "
+            "the state of its own identifier (rate 0 leaves everything unchanged, invalid own rate / strength errs, "
+            "UniformMutation moves at most its own bound) and the parameter states read back must be the modelled "
+            "ones. Right level: the helpers are pure functions on small discrete data (exhaustive enumeration "
+            "decides them up to the bound), the components are stochastic (relational validation).",
     "technique": "TLA+ spec + TLC model checking (exhaustive enumeration of helper inputs) + TLC trace validation of "
                  "replayed cases and seeded random component executions",
     "design_ref": "DESIGN.md §6 C13",
     "note": "generic code exercised at i64/usize/f64/bool elements; real vectors reach the spec only through change "
-            "masks, tags and harness-side predicates (convexity, conservation up to 1e-9, DE formula)",
+            "masks, tags, ranks, position classes and harness-side predicates (between the parents / near a gene up "
+            "to 4 ulp, conservation up to 8 ulp of the larger magnitude, move <= bound, DE formula up to 1e-9); "
+            "PartialRandomBitstring::p is checked by class only (0, 1, exactly 0.5, inside)",
 }
 
 FN_INV = ("FnTotal PermutationClosure GeneConservation ArithConvex SwapMovesChosen TranslocateShape TwinSwap "
-          "TwinTranslocate MultiPointTailSwaps CycleWhole")
+          "TwinTranslocate MultiPointTailSwaps CycleWhole ArithXConvex ArithXEnds ArithXAccepts ArithXRejects")
 COMP_INV = ("RelAccepts RelRejects CompNoFailure CompPermutationClosure CompDimensionKept CompRateZero "
-            "CompRateZeroReal CompOffspringCount CompDEFormat CompGenesFromParents CompDEGenes CompStackKept")
+            "CompRateZeroReal CompOffspringCount CompDEFormat CompGenesFromParents CompDEGenes CompStackKept "
+            "CompOwnParameters CompInvalidRejected CompStrengthBound CompCtorVariant")
 
 FN_OPS = ["circular_swap", "circular_swap2", "translocate_slice", "translocate_slice2", "multi_point", "uniform",
-          "arithmetic", "cycle"]
+          "arithmetic", "arith_x", "cycle"]
+ID_COMPS = ["NormalMutation", "UniformMutation", "PartialRandomSpread", "BitFlipMutation", "PartialRandomBitstring",
+            "ScrambleMutation"]                  # struct<I: Identifier>: parameter states keyed by the identifier
+STR_COMPS = ["NormalMutation", "UniformMutation"]   # ... with a MutationStrength state
+LADDER_N = 21                                    # size of the harness' table of extreme genes (variation.rs LADDER)
+LADDER_SET = "{%s}" % ", ".join(str(k) for k in range(1, LADDER_N + 1))
 COMPS = ["NormalMutation", "UniformMutation", "PartialRandomSpread", "BitFlipMutation", "PartialRandomBitstring",
          "ScrambleMutation", "SwapMutation", "InversionMutation", "InsertionMutation", "TranslocationMutation",
          "NPointCrossover", "UniformCrossover", "CycleCrossover", "ArithmeticCrossover", "DEMutation",
@@ -38,9 +59,9 @@ MC_COMPS = [c for c in COMPS if c not in ("ArithmeticCrossover", "DEMutation")] 
 
 BOUNDS = {
     "quick": dict(MaxPerm=4, ExtraLens="{5}", MaxPar=3, LabLens="{5}", MaxCyc=4, MaxArith=2,
-                  ArithVals="ArithValsDefault", CompN=3, CompD=3),
+                  ArithVals="ArithValsDefault", MaxArithX=1, ArithXVals=LADDER_SET, CompN=3, CompD=3),
     "thorough": dict(MaxPerm=5, ExtraLens="{6, 7}", MaxPar=4, LabLens="{5, 6}", MaxCyc=5, MaxArith=2,
-                     ArithVals="ArithValsWide", CompN=4, CompD=4),
+                     ArithVals="ArithValsWide", MaxArithX=1, ArithXVals=LADDER_SET, CompN=4, CompD=4),
 }
 
 
@@ -82,14 +103,20 @@ RULE = ("cases = (helper function, arguments) pairs and (component, parameters, 
 def parse_cases(path):
     """CASE lines (helper calls with the oracle reply) and CCASE lines (component model) of the MC run."""
     cases, comp = [], collections.Counter()
+    ctors, sib, adapt = collections.Counter(), collections.Counter(), collections.Counter()
     with open(path) as f:
         for line in f:
             if line.startswith('<<"CASE", '):
                 cases.append(json.loads(json.loads(line.rstrip("\n")[len('<<"CASE", '):-2])))
             elif line.startswith('<<"CCASE", '):
-                m = re.match(r'<<"CCASE", "([^"]+)", "([^"]+)", (\d)>>', line)
+                m = re.match(r'<<"CCASE", "([^"]+)", "([^"]+)", (\d), "([^"]+)", (\d), (\d)>>', line)
                 comp[(m.group(1), m.group(2), int(m.group(3)))] += 1
-    return cases, comp
+                ctors[(m.group(1), m.group(4))] += 1
+                if m.group(5) == "1":
+                    sib[m.group(1)] += 1
+                if m.group(6) == "1":
+                    adapt[m.group(1)] += 1
+    return cases, comp, ctors, sib, adapt
 
 
 def write_scenarios(ctx, cases, name, chunk=2000):
@@ -109,12 +136,59 @@ def write_scenarios(ctx, cases, name, chunk=2000):
     return path, by_op
 
 
+def repo_dir():
+    """The mahf tree the harness is built against (harness/Cargo.toml)."""
+    toml = open(os.path.join(vlib.HARNESS_DIR, "Cargo.toml")).read()
+    return re.search(r'mahf\s*=\s*\{\s*path\s*=\s*"([^"]+)"', toml).group(1)
+
+
+def source_ctors():
+    """Every `pub fn` of the inherent impl blocks of the variation components in the source."""
+    found = collections.defaultdict(set)
+    for rel in ("mutation/common.rs", "mutation/de.rs", "recombination/common.rs", "recombination/de.rs"):
+        cur = None
+        for line in open(os.path.join(repo_dir(), "src/components", rel)):
+            m = re.match(r'impl(?:<[^>]*>)?\s+(\w+)(?:<[^>]*>)?\s*\{', line)
+            if m:
+                cur = m.group(1)
+            elif re.match(r'impl\b', line):
+                cur = None                                # trait impl
+            elif line.startswith("}"):
+                cur = None
+            m = re.match(r'\s+pub fn (\w+)', line)
+            if m and cur in COMPS:
+                found[cur].add(m.group(1))
+    return {c: sorted(v) for c, v in found.items()}
+
+
+def check_ctor_tables(ctx, mc_out):
+    """The constructor table of the spec, the sweep of the harness and the source agree (else the check is
+    incomplete: tool error, never a verdict about the code)."""
+    spec = None
+    for line in open(mc_out):
+        if line.startswith('<<"CTORS", '):
+            spec = json.loads(json.loads(line.rstrip("\n")[len('<<"CTORS", '):-2]))
+    if spec is None:
+        raise vlib.ToolError("the model did not print its constructor table")
+    spec = {c: sorted(v) for c, v in spec.items()}
+    hp = os.path.join(ctx.work, "ctors.ndjson")
+    ctx.harness("variation", "ctors", out=hp)
+    har = {r["c"]: sorted(r["ctors"]) for r in map(json.loads, open(hp))}
+    src = source_ctors()
+    for c in COMPS:
+        if not (spec.get(c) == har.get(c) == src.get(c)):
+            raise vlib.ToolError("constructors of %s: spec %s, harness %s, source %s - extend Ctors in "
+                                 "spec/Variation.tla and ctors()/make_* in variation.rs" %
+                                 (c, spec.get(c), har.get(c), src.get(c)))
+    return spec
+
+
 def run(ctx):
     q = ctx.quick
     b = BOUNDS["quick" if q else "thorough"]
     # (A) design check + enumeration of the bounded input space (one TLC run does both)
-    mc = ctx.tlc_mc("MC_Variation", cfg_mc(b), "mc", workers=1 if q else 4, timeout=2400)
-    cases, comp = parse_cases(mc["out"])
+    mc = ctx.tlc_mc("MC_Variation", cfg_mc(b), "mc", workers=2 if q else 4, timeout=2400)
+    cases, comp, mc_ctors, mc_sib, mc_adapt = parse_cases(mc["out"])
     scen, by_op = write_scenarios(ctx, cases, "cases")
     missing = [o for o in FN_OPS if not by_op.get(o)]
     if missing:
@@ -126,20 +200,55 @@ def run(ctx):
     for k in ("err", "ctor_err"):
         if not any(kk == k for (_, kk, _) in comp):
             raise vlib.ToolError("vacuous component model: reply kind %s never generated" % k)
+    ctors = check_ctor_tables(ctx, mc["out"])
+    missing = [(c, ct) for c in MC_COMPS for ct in ctors[c] if not mc_ctors[(c, ct)]]
+    if missing:
+        raise vlib.ToolError("vacuous component model: constructor never modelled: %s" % missing)
+    missing = [c for c in ID_COMPS if not mc_sib[c] or not mc_adapt[c]]
+    if missing:
+        raise vlib.ToolError("vacuous component model: no sibling instance / adaptation for %s" % missing)
     # (B) spec -> impl: every enumerated helper call replayed on the real function
     tr = os.path.join(ctx.work, "cases.trace.ndjson")
     ctx.harness("variation", "replay", **{"in": scen, "out": tr})
     ctx.validate("Trace_Variation", CFG_TRACE, tr, "cases", DESCRIBE, {"driver": "variation"}, max_rejections=4)
-    # (C) impl -> spec: seeded random executions of every component + helper calls on longer inputs
+    # (C) impl -> spec: seeded random executions of every component (every constructor in turn, identifiers,
+    #     siblings, adaptations) + helper calls on longer inputs
     tr2 = os.path.join(ctx.work, "random.trace.ndjson")
     ctx.harness("variation", "random", out=tr2, seed=ctx.seed, n=600 if q else 15000, nfn=3000 if q else 60000,
                 maxlen=10 if q else 12)
     recs = [json.loads(l) for l in open(tr2)]
-    seen = collections.Counter((r["act"]["c"], r["res"]["k"]) for r in recs if r.get("kind") == "comp")
+    comps = [r for r in recs if r.get("kind") == "comp"]
+    seen = collections.Counter((r["act"]["c"], r["res"]["k"]) for r in comps)
+    seen_ct = collections.Counter((r["act"]["c"], r["act"]["ctor"]) for r in comps if r["res"]["k"] == "ok")
+    # identifier coverage: an instance under a non-default identifier next to a Global sibling whose rate is of
+    # another class; an adapted instance
+    ids = {"sib": collections.Counter(), "adapt": collections.Counter(), "sib_strength": collections.Counter()}
+    for r in comps:
+        a = r["act"]
+        if r["res"]["k"] != "ok":
+            continue
+        reg = r["res"]["reg"]
+        if a["id"] != "Global" and any(s["id"] == "Global" for s in a["sibs"]) and reg and \
+                reg[0][0] != reg[["Global", "A", "B"].index(a["id"])][0]:
+            ids["sib"][a["c"]] += 1
+        if a["id"] != "Global" and any(s["id"] == "Global" for s in a["sibs"]) and reg and \
+                reg[0][1] != reg[["Global", "A", "B"].index(a["id"])][1]:
+            ids["sib_strength"][a["c"]] += 1
+        if any(ad["id"] == a["id"] for ad in a["adapt"]):
+            ids["adapt"][a["c"]] += 1
     ctx.validate("Trace_Variation", CFG_TRACE, tr2, "random", DESCRIBE, {"driver": "variation"}, max_rejections=8)
-    missing = [c for c in COMPS if seen[(c, "ok")] == 0]
-    if missing and not ctx.violations:
-        raise vlib.ToolError("vacuous random run: no ok-execution recorded for %s" % missing)
+    if not ctx.violations:
+        missing = [c for c in COMPS if seen[(c, "ok")] == 0]
+        if missing:
+            raise vlib.ToolError("vacuous random run: no ok-execution recorded for %s" % missing)
+        missing = [(c, ct) for c in COMPS for ct in ctors[c] if seen_ct[(c, ct)] == 0]
+        if missing:
+            raise vlib.ToolError("vacuous random run: no ok-execution through constructor %s" % missing)
+        missing = [(k, c) for k in ids for c in (STR_COMPS if k == "sib_strength" else ID_COMPS) if ids[k][c] == 0]
+        if missing:
+            raise vlib.ToolError("vacuous random run: identifier scenario never executed: %s" % missing)
+    if not any(r.get("kind") == "fn" and r["act"]["op"] == "arith_x" for r in recs):
+        raise vlib.ToolError("vacuous random run: no arithmetic crossover on extreme genes")
     # (C') NPointCrossover with a number of points outside 1..dim-1 (undocumented range), one run per case
     tr3 = os.path.join(ctx.work, "edge.trace.ndjson")
     ctx.harness("variation", "edge", out=tr3, seed=ctx.seed, n=3 if q else 12)
@@ -148,9 +257,18 @@ def run(ctx):
         "helper input space bounded by %s" % json.dumps(b),
         "helpers are generic in the element type: enumerated at i64, other element types are relabelings",
         "multi-point / uniform crossover enumerated for parents of equal length (a VectorProblem has one dimension)",
+        "arithmetic crossover on extreme genes: all pairs of the %d table values (+-f64::MAX ... +-f64::MIN_POSITIVE, "
+        "0) x 9 alphas (0, 2^-60, .., 1-2^-53, 1) enumerated for length 1, random vectors up to the maximal length; "
+        "'between the parents' = within the interval widened by 4 ulp of each end (rounding of two products and a "
+        "sum), 'conserved' = sum of the children equals the sum of the parents up to 8 ulp of the larger magnitude"
+        % LADDER_N,
         "component model (TLC) bounded by populations <= %d, dimension <= %d; ArithmeticCrossover and DEMutation "
         "are validated on recorded executions only (float predicates)" % (b["CompN"], b["CompD"]),
-        "random component executions: populations 0..5, dimensions 1..8, rates in {0, 1, inside (0,1), outside [0,1]}",
+        "constructors: the table Ctors of the spec = the sweep of the harness = every pub fn of the components' "
+        "inherent impl blocks in the source (compared at run time); identifiers Global, A, B",
+        "random component executions: populations 0..5, dimensions 1..8, rates in {0, 1, inside (0,1), outside [0,1]}, "
+        "strengths in {0.125, 0.5, 2, 8, NaN}; real populations of ArithmeticCrossover from the box [-4,12) or from "
+        "the table of extreme values",
         "InversionMutation/TranslocationMutation/SwapMutation exercised for dimension >= 2",
     ]
     return ctx.finish(RULE)
